@@ -81,3 +81,7 @@ package metadata
 //@   loop 1 invariant forall(func(j int) bool { return implies(0 <= j && j < i, kvCopy[j] == ite(j%2 == 0, strings.ToLower(kv[j]), kv[j])) })
 //@   assert at call WithValue#1 len(kvCopy) == len(kv) && sameslice(added[len(added)-1], kvCopy)
 //@   assert at call WithValue#1 forall(func(j int) bool { return implies(0 <= j && j < len(kv), kvCopy[j] == ite(j%2 == 0, strings.ToLower(kv[j]), kv[j])) })
+
+// reading the outgoing metadata builds a new MD and changes nothing (frame only; not verified here)
+//@ func FromOutgoingContext
+//@   trusted
